@@ -74,6 +74,7 @@ func (f *factSet) node(name string) int {
 func (f *factSet) addLE(a, b term, c int64) {
 	i, j := f.node(a.node), f.node(b.node)
 	c = c + b.off - a.off
+
 	if i == j {
 		return
 	}
@@ -1369,6 +1370,11 @@ func (p *prover) collectEdge(q ssa.Instruction, to *ssa.BasicBlock) *collector {
 		if len(g.Conj) < 2 || !g.Head.Dominates(q.Block()) || g.Exit.Dominates(q.Block()) || g.Head == q.Block() {
 			continue
 		}
+		// the clause only holds once every conjunct has been tested: each test must lie on every
+		// path to q, strictly before it (a query between two tests of a nested chain must not use it)
+		if insideChain(g, q.Block()) {
+			continue
+		}
 		unknown, n := -1, 0
 		for i, cj := range g.Conj {
 			if cl.entails(cj.V, cj.Truth) {
@@ -1382,6 +1388,55 @@ func (p *prover) collectEdge(q ssa.Instruction, to *ssa.BasicBlock) *collector {
 		}
 	}
 	return cl
+}
+
+// insideChain: block b can be reached from inside the guard's chain of tests - after the head's
+// test came out "towards the exit" - without one of the later tests having failed. There not all
+// conjuncts have been evaluated yet, so the clause not(c1 && ... && ck) says nothing.
+func insideChain(g NegConj, b *ssa.BasicBlock) bool {
+	next := func(cj Cond) *ssa.BasicBlock {
+		blk := cj.If.Block()
+		if cj.Truth {
+			return blk.Succs[0]
+		}
+		return blk.Succs[1]
+	}
+	chain := map[*ssa.BasicBlock]Cond{}
+	var head *Cond
+	for i := range g.Conj {
+		if g.Conj[i].If == nil {
+			return true
+		}
+		chain[g.Conj[i].If.Block()] = g.Conj[i]
+		if g.Conj[i].If.Block() == g.Head {
+			head = &g.Conj[i]
+		}
+	}
+	if head == nil {
+		return true
+	}
+	seen := map[*ssa.BasicBlock]bool{}
+	stack := []*ssa.BasicBlock{next(*head)}
+	for len(stack) > 0 {
+		x := stack[len(stack)-1]
+		stack = stack[:len(stack)-1]
+		if seen[x] {
+			continue
+		}
+		seen[x] = true
+		if x == b {
+			return true
+		}
+		if cj, isTest := chain[x]; isTest && x != g.Head {
+			stack = append(stack, next(cj)) // only onwards in the chain; a failed test leaves it
+			continue
+		}
+		if x == g.Head {
+			continue
+		}
+		stack = append(stack, x.Succs...)
+	}
+	return false
 }
 
 // entails: the integer comparison v (or its negation) follows from the facts gathered so far.
@@ -1408,6 +1463,11 @@ func (cl *collector) entails(v ssa.Value, truth bool) bool {
 		default:
 			return false
 		}
+	}
+	switch op {
+	case token.LSS, token.LEQ, token.GTR, token.GEQ:
+	default:
+		return false
 	}
 	cl.define(b.X, 1)
 	cl.define(b.Y, 1)
